@@ -637,6 +637,10 @@ def r01_caches(ctx, tom):
     from .c02 import r02ab, r02c
     r02ab(ctx, tom)
     r02c(ctx)
+    # the bulk editors of the grid read their rows through Table.traverse: rows that are mis-stamped, skipped, or aliases of one another are
+    # written back to the wrong place / several places (R08f is a necessary condition of the grid model as well)
+    from .c08 import r08f
+    r08f(ctx)
 
 
 def run(ctx):
